@@ -18,6 +18,7 @@
 #include <sstream>
 #include <iostream>
 #include <unistd.h>
+#include <errno.h>
 #include <fcntl.h>
 #include <signal.h>
 #include <sys/wait.h>
@@ -62,6 +63,8 @@ struct memfile
   std::vector<std::pair<size_t, size_t>> wlog; // (offset, length)
   bytes wbytes;                                  // concatenation of written bytes
   size_t reads = 0;
+  size_t fail_total = (size_t)-1; // after this many bytes have been delivered in total, reads fail with EIO (a read error, not EOF)
+  size_t delivered = 0;
 };
 static ssize_t mf_read(void *c, char *buf, size_t n)
 {
@@ -69,8 +72,16 @@ static ssize_t mf_read(void *c, char *buf, size_t n)
   size_t avail = m->pos < m->data.size() ? m->data.size() - m->pos : 0;
   if (n > avail)
     n = avail;
+  if (m->delivered >= m->fail_total)
+  {
+    errno = EIO;
+    return -1;
+  }
+  if (m->delivered + n > m->fail_total)
+    n = m->fail_total - m->delivered;
   memcpy(buf, m->data.data() + m->pos, n);
   m->pos += n;
+  m->delivered += n;
   m->reads++;
   return n;
 }
@@ -226,6 +237,41 @@ static std::string op_enc(const std::vector<std::string> &a)
   unlink(inpath.c_str());
   std::ostringstream o;
   o << (r ? "OK " : "FAILED ") << hex(out.data) << " | wlog=" << wlog_str(out) << " inmod=" << (after == plain ? 0 : 1) << " wdata=" << hex(out.wbytes);
+  return o.str();
+}
+// encf CM HM T KEY SEED PLAIN FAILAT | decf T KEY FILE FAILAT : the same operations on an input stream whose reads start
+// failing with EIO once FAILAT bytes have been delivered in total (over all passes); only termination is of interest
+static std::string op_fault(const std::vector<std::string> &a)
+{
+  bool enc = a[0] == "encf";
+  memfile in, out;
+  FILE *fo = open_mem(&out, "w+", false);
+  bool r;
+  if (enc)
+  {
+    int cm = atoi(a[1].c_str()), hm = atoi(a[2].c_str()), T = atoi(a[3].c_str());
+    bytes key = unhex(a[4]), seed = unhex(a[5]);
+    in.data = unhex(a[6]);
+    in.fail_total = strtoull(a[7].c_str(), NULL, 10);
+    seed.push_back(0);
+    FILE *fin = open_mem(&in, "r", false);
+    Settings st(cm, hm, true);
+    runcrypt rc(fin, fo, key.data(), st, (u8_t)T);
+    r = rc.execute_encrypt(in.data.size(), seed.data());
+  }
+  else
+  {
+    int T = atoi(a[1].c_str());
+    bytes key = unhex(a[2]);
+    in.data = unhex(a[3]);
+    in.fail_total = strtoull(a[4].c_str(), NULL, 10);
+    FILE *fin = open_mem(&in, "r", false);
+    Settings st(-1, -1, true);
+    runcrypt rc(fin, fo, key.data(), st, (u8_t)T);
+    r = rc.execute_decrypt(in.data.size());
+  }
+  std::ostringstream o;
+  o << "RETURNED " << (r ? 1 : 0) << " | outlen=" << out.data.size() << " delivered=" << in.delivered;
   return o.str();
 }
 // dec T KEY FILE   |  ver T KEY FILE
@@ -401,6 +447,8 @@ static std::string run_fileop(const std::vector<std::string> &a)
 {
   if (a[0] == "enc")
     return op_enc(a);
+  if (a[0] == "encf" || a[0] == "decf")
+    return op_fault(a);
   if (a[0] == "dec")
     return op_decver(a, true);
   if (a[0] == "ver")
@@ -676,7 +724,7 @@ int main(int argc, char **argv)
       if (a.empty())
         continue;
     }
-    if (a[0] == "enc" || a[0] == "dec" || a[0] == "ver" || a[0] == "pipe" || a[0] == "cli" || a[0] == "encp" || a[0] == "decp" || a[0] == "verp")
+    if (a[0] == "enc" || a[0] == "dec" || a[0] == "ver" || a[0] == "encf" || a[0] == "decf" || a[0] == "pipe" || a[0] == "cli" || a[0] == "encp" || a[0] == "decp" || a[0] == "verp")
     {
       isolated(id, {a});
     }
